@@ -39,6 +39,7 @@ type HReq struct {
 	Form    bool     `json:",omitempty"`
 	Mal     string   `json:",omitempty"` // malformed: which kind
 	NewConn bool     `json:",omitempty"` // start a new connection before this request
+	Host    string   `json:",omitempty"` // Host header ("" = a host of its own); related to the probe's host: same, a sub-domain, a look-alike suffix, other case, with port
 }
 
 type Probe struct {
@@ -147,8 +148,12 @@ func (h HReq) wire() []byte {
 	} else if body != "" {
 		ct = "Content-Type: application/json\r\n"
 	}
-	return []byte(fmt.Sprintf("%s /dirty/D%d%s?acts=%s&a=qa%d&b=qb1&b=qb2&n=%d HTTP/1.1\r\nHost: h%d.sub.test\r\nX-A: ha%d\r\nX-Forwarded-For: 9.9.9.%d\r\nAccept: text/plain;q=0.%d\r\nRange: bytes=%d-\r\nIf-None-Match: \"e%d\"\r\n%sCookie: a=ca%d; sid=s%d%s\r\nContent-Length: %d\r\n\r\n%s",
-		h.Method, h.I, p2, strings.Join(h.Acts, ","), h.I, h.I, h.I, h.I, h.I%250, h.I%9+1, h.I, h.I, ct, h.I, h.I, flashHdr(h.Flash), len(body), body))
+	host := h.Host
+	if host == "" {
+		host = fmt.Sprintf("h%d.sub.test", h.I)
+	}
+	return []byte(fmt.Sprintf("%s /dirty/D%d%s?acts=%s&a=qa%d&b=qb1&b=qb2&n=%d HTTP/1.1\r\nHost: %s\r\nX-A: ha%d\r\nX-Forwarded-For: 9.9.9.%d\r\nAccept: text/plain;q=0.%d\r\nRange: bytes=%d-\r\nIf-None-Match: \"e%d\"\r\n%sCookie: a=ca%d; sid=s%d%s\r\nContent-Length: %d\r\n\r\n%s",
+		h.Method, h.I, p2, strings.Join(h.Acts, ","), h.I, h.I, host, h.I, h.I%250, h.I%9+1, h.I, h.I, ct, h.I, h.I, flashHdr(h.Flash), len(body), body))
 }
 
 func (p Probe) wire() []byte {
@@ -360,6 +365,7 @@ func genCase(t *rapid.T) Case {
 			continue
 		}
 		h.Acts = rapid.SliceOfN(rapid.SampledFrom(allActs), 0, 4).Draw(t, "acts")
+		h.Host = rapid.SampledFrom([]string{"", "", "", "probe.test", "www.probe.test", "evil-probe.test", "PROBE.TEST", "probe.test:8080", "test"}).Draw(t, "host")
 		if rapid.IntRange(0, 2).Draw(t, "hflash") == 0 {
 			h.Flash = genFlash(t, "hf")
 		}
